@@ -76,6 +76,7 @@ class PathState:
         self.used_contracts = set()
         self.used_models = set()
         self.unknown_feasibility = 0
+        self.side_conditions = []  # stack: in-range conditions collected inside quantifier bodies
         self.fresh_log = []        # every fresh constant, in creation order (for skolemisation in quantifiers)
         self.no_fork = 0           # >0 inside quantifier bodies: a real fork is not allowed
         self.known = {}            # z3 term id -> list of (frozenset(scope ids), bool): entailed truth values
